@@ -30,6 +30,8 @@ MEMBERS = [
     ("seq", ["Sequence", [[None, B], [None, ["OneOf", B, [5, 6]]], [None, ["name", "VarInt"]]]]),
     ("arr", ["Array", 2, ["name", "Int16ub"]]), ("padded", ["Padded", 3, B]),
     ("nested-select", ["Select", [["Const", tag(b"\x09\x09"), None], ["name", "Int16ub"]]]),
+    # a length-prefixed record of fixed-size fields: sizeof() answers statically, what is consumed follows the length byte
+    ("prefixed-fixed", ["Prefixed", B, ["Struct", [["a", B], ["b", B]]]]), ("prefixed-byte", ["Prefixed", B, ["Bytes", 1]]),
     ("u24", ["name", "Int24ub"]), ("check", ["Struct", [["n", B], [None, ["Check", ["bin", "<", ["this", "n"], 4]]], ["d", ["Bytes", ["this", "n"]]]]]),
 ]
 MREC = dict(MEMBERS)
@@ -40,6 +42,7 @@ CANON = {
     "oneof": [b"\x01", b"\x03"], "const7": [b"\x07"], "struct": [b"\x09\x01\x34\x12"], "seq": [b"\x01\x05\x81\x01", b"\x02\x06\x00"],
     "arr": [b"\x00\x01\x00\x02"], "padded": [b"\x09\x00\x00"], "nested-select": [b"\x09\x09", b"\x01\x02"], "u24": [b"\x01\x02\x03"],
     "check": [b"\x02xy", b"\x00", b"\x03abc"],
+    "prefixed-fixed": [b"\x02ab", b"\x04abXY", b"\x03abZ"], "prefixed-byte": [b"\x01a", b"\x03aXY"],
 }
 
 
@@ -462,8 +465,14 @@ def case_union(ctx, case):
     kw = {}
     if isinstance(pf, list):
         d = C.Union(C.this._params.sel, *subs)
-        kw = {"sel": pf[1]}
         sel = pf[1]
+        selobj = sel
+        if pf[0] == "ctx-label":           # a label object as an Enum hands it out (a str subclass)
+            selobj = C.EnumIntegerString.new(7, sel)
+        elif pf[0] == "ctx-intenum":       # a member of an IntEnum / a bool (int subclasses)
+            import enum
+            selobj = enum.IntEnum("Sel", [("m%d" % i, i) for i in range(len(members))])(sel) if sel > 1 else bool(sel)
+        kw = {"sel": selobj}
     else:
         d = C.Union(pf, *subs)
         sel = pf
@@ -525,6 +534,77 @@ def case_union(ctx, case):
 
 
 COMPILED = {}
+
+
+COMPILED_PTR = {}
+
+
+def case_pointers_compiled(ctx, case):
+    """one format holding several Pointers of different kinds (constant absolute, constant end-relative, offsets taken from the
+    context with either sign), interpreted and compiled: same values, same final position, same bytes written"""
+    import construct as C
+    kinds = case["kinds"]            # list of ["abs", n] | ["end", -n] | ["ctx", n]
+    data, off = untag(case["data"]), case["offset"]
+    ms, kw = [], {}
+    for i, (kd, n) in enumerate(kinds):
+        if kd == "ctx":
+            kw["o%d" % i] = n
+            ms.append(("p%d" % i) / C.Pointer(getattr(C.this._params, "o%d" % i), C.Byte))
+        else:
+            ms.append(("p%d" % i) / C.Pointer(n, C.Byte))
+    d = C.Struct("h" / C.Byte, *ms, "t" / C.Byte)
+    key = repr(kinds)
+    if key not in COMPILED_PTR:
+        try:
+            COMPILED_PTR[key] = d.compile()
+        except Exception:
+            COMPILED_PTR[key] = None
+    dc = COMPILED_PTR[key]
+    if dc is None:
+        ctx.count("pointers_not_compilable")
+        return
+    ctx.ev()
+
+    def run(x):
+        s = TracedStream(data, pos=off)
+        try:
+            v = x.parse_stream(s, **kw)
+            return ("ok", {k2: v[k2] for k2 in v if not str(k2).startswith("_")}, s.pos)
+        except Exception as e:
+            return ("exc",)              # (generated code reports short data with exceptions of its own: only success / failure is compared)
+    a, b = run(d), run(dc)
+    # reference for the interpreted side: every target read straight from the data
+    want = None
+    if len(data) >= off + 2:
+        vals = {"h": data[off], "t": data[off + 1]}
+        for i, (kd, n) in enumerate(kinds):
+            at = n if n >= 0 else len(data) + n
+            vals["p%d" % i] = data[at] if 0 <= at < len(data) else None
+        if all(v is not None for v in vals.values()):
+            want = vals
+    if want is not None and (a[0] != "ok" or any(a[1].get(k2) != v for k2, v in want.items()) or a[2] != off + 2):
+        ctx.violation("pointers-interpreted-differ-from-data", "interpreted -> %r, the data say %r ending at %d" % (a, want, off + 2), case)
+        return
+    if a != b:
+        ctx.violation("pointers-compiled-differ:parse", "kinds %r: interpreted -> %r, compiled -> %r" % (kinds, a, b), case)
+        return
+    if a[0] == "ok" and want is not None:
+        # build into a pre-filled stream: every target receives its byte, the position ends after the two sequential members
+        v = {k2: (x + 1) % 256 for k2, x in want.items()}
+        outs = []
+        for x in (d, dc):
+            s2 = TracedStream(bytes(data), pos=off)
+            try:
+                x.build_stream(v, s2, **kw)
+                outs.append(("ok", s2.getvalue(), s2.pos))
+            except Exception as e:
+                outs.append(("exc", type(e).__name__))
+        if outs[0] != outs[1]:
+            ctx.violation("pointers-compiled-differ:build", "kinds %r: interpreted build -> %r, compiled -> %r" % (kinds, outs[0][:1] + outs[0][2:] if outs[0][0] == "ok" else outs[0], outs[1][:1] + outs[1][2:] if outs[1][0] == "ok" else outs[1]), case)
+            return
+    ctx.count("pointer_formats_compiled_compared")
+    if len(set(k2 for k2, _ in kinds)) > 1 or len(set(n < 0 for _, n in kinds)) > 1:
+        ctx.nontrivial("pointers-compiled", kinds, off)
 
 
 def case_union_reentrant(ctx, case):
@@ -628,7 +708,7 @@ def bitprobe_recipes():
     ]
 
 
-KINDS = {"peek": case_peek, "pointer": case_pointer, "select": case_select, "greedy": case_greedy, "union": case_union, "bitprobe": case_bitprobe, "select-foreign": case_select_foreign, "union-reentrant": case_union_reentrant}
+KINDS = {"peek": case_peek, "pointer": case_pointer, "select": case_select, "greedy": case_greedy, "union": case_union, "bitprobe": case_bitprobe, "select-foreign": case_select_foreign, "union-reentrant": case_union_reentrant, "pointers-compiled": case_pointers_compiled}
 
 
 LAST = [None]
@@ -665,6 +745,13 @@ def run(ctx):
         for headw in (1, 2):
             for pf in (None, "head", "tree", "z", 0, 1, 2):
                 jobs.append(("union-reentrant", order, headw, pf))
+    PK = [["abs", 1], ["abs", 4], ["end", -2], ["end", -1], ["ctx", 2], ["ctx", -3], ["abs", 0]]
+    for a in PK:
+        for b in PK:
+            if a != b:
+                jobs.append(("pointers-compiled", [a, b]))
+    for _ in range(ctx.pick(30, 300)):
+        jobs.append(("pointers-compiled", [trip.choice(PK) for _ in range(trip.randint(3, 4))]))
     for f in ("zlib", "lookup", "arity", "lambda"):
         for n in ("byte", "u16", "cstr", "struct", "varint", "bytes3"):
             jobs.append(("select-foreign", f, n))
@@ -706,6 +793,10 @@ def run(ctx):
             ins = [bytes([a]) for a in range(256)] + [bytes([a, b]) for a in range(0, 256, 17) for b in (0, 0x5a, 0xff)] + [bytes(rng.getrandbits(8) for _ in range(L)) for L in (3, 3, 4, 4, 5, 6) for _ in range(ctx.pick(4, 40))] + [b""]
             for data in ins:
                 run_case(ctx, {"kind": "bitprobe", "recipe": job[2], "data": tag(data)})
+        elif kind == "pointers-compiled":
+            for data in (bytes(range(0x10, 0x18)), bytes(range(0x40, 0x46)), b"\x01\x02\x03", b"\x09"):
+                for off in (0, 2):
+                    run_case(ctx, {"kind": "pointers-compiled", "kinds": job[1], "data": tag(data), "offset": off})
         elif kind == "union-reentrant":
             datas = [b"\x00\xaa\xbb", b"\x01\x00\xaa\xbb", b"\x02\x01\x00\xaa\xbb\xcc", b"\x03\x02\x01\x00\x09\x08\x07", b"\x01\x01\x01\x00", b"\x01\x01", b"\x02", b"", b"\x00",
                      b"\x01\x00", b"\xff\x01\x00\x00\x05"] + [bytes(rng.choice([0, 0, 1, 2, 3]) for _ in range(rng.randint(1, 7))) + b"\x00\x10\x20" for _ in range(ctx.pick(6, 40))]
@@ -732,6 +823,7 @@ def run(ctx):
             if namedidx:
                 pfs += [members[namedidx[-1]][0], ["ctx", members[namedidx[0]][0]], ["ctx", namedidx[0]]]
             pfs += [["ctx", None]]            # a selector expression that yields None: "select nothing", end at the start
+            pfs += [["ctx-intenum", 0], ["ctx-intenum", 1], ["ctx-intenum", len(ms) - 1]] + ([["ctx-label", members[namedidx[-1]][0]]] if namedidx else [])
             base = b"".join(max((CANON[m][0] for m in ms), key=len) for _ in range(1))
             datas = [CANON[ms[0]][0] + b"\x01\x02\x03\x04\x05", b"\x01\x05\x01\x02\x07AB\x00\x01\x02", b"AB\x01\x03\x00\x00\x07", b"\x02\x06\x00\x01\x02\x03\x04\x05", b"\x07\x01\x00\x00\x01\x02", b"\x03abc\x00\x01\x02\x03"]
             for data in datas:
